@@ -14,6 +14,7 @@ package walk
 // notifications with matching nodes, no notification after the visitor asked to stop, every error reported
 // by the visitor is returned, every index into the cursor stack and every NextBranch is in range.
 
+//@ import pgsql "github.com/specterops/dawgs/cypher/models/pgsql"
 //@ ghost comp vdone bool
 //@ ghost comp vdepth int
 //@ ghost comp vopen seq[int]
@@ -55,6 +56,35 @@ package walk
 //@   requires s != nil && 0 <= s.BranchIndex && s.BranchIndex < len(s.Branches)
 //@   modifies s.BranchIndex
 //@   ensures result == s.Branches[old(s.BranchIndex)] && s.BranchIndex == old(s.BranchIndex) + 1
+
+// ---- cursor constructors of the SQL walk -----------------------------------------------------------------------
+//
+// AddBranches appends, in order (the values the argument held at the call: the argument may share the receiver's array). The CASE cursor: a node whose WHEN and THEN lists differ in
+// length is REPORTED (an error and no cursor - never a cursor that leaves some of them out); otherwise the cursor is for
+// the very node it was asked for, starts at its first branch, and its branches are exactly the operand (if any), then
+// WHEN i followed by THEN i for every i in order, then the ELSE (if any).
+
+//@ func (s *Cursor[N]) AddBranches(branches ...N)
+//@   requires s != nil
+//@   modifies s.Branches, all(elems:N)
+//@   ensures length: len(s.Branches) == old(len(s.Branches)) + len(branches)
+//@   ensures kept: forall i int :: 0 <= i && i < old(len(s.Branches)) ==> s.Branches[i] == old(s.Branches[i])
+//@   ensures appended: forall j int :: old(len(s.Branches)) <= j && j < len(s.Branches) ==> s.Branches[j] == old(branches[j - len(s.Branches)])
+
+//@ func newSQLCaseWalkCursor(node pgsql.SyntaxNode, caseExpr pgsql.Case) (*Cursor[pgsql.SyntaxNode], error)
+//@   ensures reported: (len(caseExpr.Conditions) != len(caseExpr.Then)) == (result.1 != nil)
+//@   ensures noCursorWithError: result.1 != nil ==> result.0 == nil
+//@   ensures identity: result.1 == nil ==> result.0 != nil && fresh(result.0) && result.0.Node == node && result.0.BranchIndex == 0
+//@   ensures count: result.1 == nil ==> len(result.0.Branches) == (caseExpr.Operand != nil ? 1 : 0) + 2 * len(caseExpr.Conditions) + (caseExpr.Else != nil ? 1 : 0)
+//@   ensures operand: result.1 == nil && caseExpr.Operand != nil ==> result.0.Branches[0] == caseExpr.Operand
+//@   ensures pairs: result.1 == nil ==> forall i int :: 0 <= i && i < len(caseExpr.Conditions) ==> result.0.Branches[(caseExpr.Operand != nil ? 1 : 0) + 2 * i] == caseExpr.Conditions[i] && result.0.Branches[(caseExpr.Operand != nil ? 1 : 0) + 2 * i + 1] == caseExpr.Then[i]
+//@   ensures orElse: result.1 == nil && caseExpr.Else != nil ==> result.0.Branches[len(result.0.Branches) - 1] == caseExpr.Else
+//@   loop 0
+//@     invariant cursor: nextCursor != nil && fresh(nextCursor) && nextCursor.Node == node && nextCursor.BranchIndex == 0 && len(caseExpr.Conditions) == len(caseExpr.Then)
+//@     invariant range: -1 <= rangeindex && rangeindex < len(caseExpr.Conditions)
+//@     invariant count: len(nextCursor.Branches) == (caseExpr.Operand != nil ? 1 : 0) + 2 * (rangeindex + 1)
+//@     invariant operand: caseExpr.Operand != nil ==> nextCursor.Branches[0] == caseExpr.Operand
+//@     invariant pairs: forall i int :: 0 <= i && i <= rangeindex ==> nextCursor.Branches[(caseExpr.Operand != nil ? 1 : 0) + 2 * i] == caseExpr.Conditions[i] && nextCursor.Branches[(caseExpr.Operand != nil ? 1 : 0) + 2 * i + 1] == caseExpr.Then[i]
 
 // ---- the cancelable handler ------------------------------------------------------------------------------------
 
